@@ -35,6 +35,7 @@ class Opts:
         self.leading_blank_lines = True
         self.interrupt = True             # omit the blank line where a block may interrupt a paragraph
         self.adjacent_lists = False       # two lists in a row: recorded finding (looseness of the first)
+        self.extra_blank = True           # now and then two or three blank lines between blocks
         self.glue = False                 # write some inline constructs directly next to each other (no space)
         self.__dict__.update(kw)
 
@@ -309,7 +310,7 @@ def gen_block(rng, o, depth, in_quote, prev):
             else:
                 bullet = {'-': '+', '+': '*', '*': '-'}[prev.bullet]
         return N('list', ordered=ordered, start=rng.choice([1, 1, 2, 7, 10, 0, 999999997]) if ordered else None, tight=tight, items=items,
-                 bullet=bullet, delim=delim, pad=rng.randint(1, 4))
+                 bullet=bullet, delim=delim, pad=rng.randint(1, 4), indent=rng.choice([0, 0, 0, 1, 2, 3]))
     if r < 0.37:
         return N('atx', level=rng.randint(1, 6), kids=gen_inlines(rng, o, n=rng.randint(1, 4), allow_break=False),
                  closing=rng.choice([0, 0, 1, 3]), indent=rng.randint(0, 3))
@@ -446,6 +447,9 @@ class Writer:
                         any_blank = True
                 out += lines
             b.tight = not any_blank       # looseness is decided by the blank lines actually written
+            if getattr(b, 'indent', 0):
+                # 0-3 spaces before the list markers (every line of the list moves with them)
+                out = [(' ' * b.indent + l) if l else '' for l in out]
             return out
         raise ValueError(b.kind)
 
@@ -466,6 +470,9 @@ class Writer:
             if prev is not None and sep:
                 out.append('')
                 blanks += 1
+                if self.o.extra_blank and self.rng.random() < 0.08:
+                    # more than one blank line between two blocks means the same as one
+                    out += [''] * self.rng.randint(1, 2)
             b.rel = len(out)
             out += lines
             prev = b
